@@ -156,6 +156,13 @@ func main() {
 			os.Exit(1)
 		}
 		an.DumpE3(p)
+	case "dump-e12":
+		p, err := an.Load(parseConfig(o.config, o.repo))
+		if err != nil {
+			fmt.Println(err)
+			os.Exit(1)
+		}
+		an.DumpE12(p)
 	case "list":
 		for _, id := range an.AllProps() {
 			fmt.Println(id)
